@@ -388,3 +388,182 @@ def leading_stmts(tokens, pred):
             break
         out.append(s)
     return out
+
+
+# --------------------------------------------------------------------------------------------------------------------
+# Rule fragments: boolean / index logic over `Nat`, `Option Nat`, `Option Unit` (shift present or not), masks
+# --------------------------------------------------------------------------------------------------------------------
+
+class RuleEmitter:
+    """typed translation of the bookkeeping rules.  Types: B bool, N index, ON Option index, OS Option shift (present or
+    not), MASK index -> bool, OMASK Option mask, HS a half space seen through (right_idx, shift), FACE a stored face seen
+    through (left, right, shift).  `atoms` maps recognised opaque sub-expressions to named boolean parameters."""
+
+    def __init__(self):
+        self.guards = []
+
+    def pat(self, p, ty):
+        """pattern over ON / OS -> (lean pattern, {var: type})"""
+        if p[0] == 'pwild':
+            return '_', {}
+        if p[0] == 'pctor' and p[1] == ['None'] and not p[2]:
+            return 'none', {}
+        if p[0] == 'pctor' and p[1] == ['Some'] and len(p[2]) == 1:
+            inner = p[2][0]
+            if inner[0] == 'pvar':
+                return 'some %s' % inner[1], {inner[1]: ('N' if ty == 'ON' else 'S')}
+            if inner[0] == 'pwild':
+                return 'some _', {}
+        if p[0] == 'pvar':
+            return p[1], {p[1]: ty}
+        raise Unparsed("pattern %r" % (p,))
+
+    def expr(self, e, env):
+        k = e[0]
+        if k == 'paren':
+            return self.expr(e[1], env)
+        if k == 'path':
+            if len(e[1]) == 1:
+                nm = e[1][0]
+                if nm in ('true', 'false'):
+                    return nm, 'B'
+                if nm in env:
+                    return env[nm]
+            raise Unparsed("unknown name %s" % '::'.join(e[1]))
+        if k == 'num':
+            return e[1].rstrip('usize'), 'N'
+        if k == 'un' and e[1] == '!':
+            t, ty = self.expr(e[2], env)
+            if ty == 'B':
+                return "(!%s)" % t, 'B'
+            raise Unparsed("! on %s" % ty)
+        if k == 'bin':
+            op = e[1]
+            a, ta = self.expr(e[2], env)
+            b, tb = self.expr(e[3], env)
+            if op in ('&&', '||') and ta == tb == 'B':
+                return "(%s %s %s)" % (a, op, b), 'B'
+            if op in ('<', '>', '<=', '>=', '==', '!=') and ta == tb == 'N':
+                lop = {'<': '<', '>': '>', '<=': '≤', '>=': '≥', '==': '=', '!=': '≠'}[op]
+                return "(decide (%s %s %s))" % (a, lop, b), 'B'
+            raise Unparsed("operator %s on %s, %s" % (op, ta, tb))
+        if k == 'field':
+            t, ty = self.expr(e[1], env)
+            if ty == 'SELF' and e[2] == 'idx':
+                return 'idx', 'N'
+            if ty == 'HS' and e[2] == 'right_idx':
+                return t + '_right', 'ON'
+            if ty == 'HS' and e[2] == 'shift':
+                return t + '_shift', 'OS'
+            if ty == 'FACEINNER' and e[2] == 'right':
+                return 'right', 'ON'
+            if ty == 'FACEINNER' and e[2] == 'shift':
+                return 'shift', 'OS'
+            if ty == 'SELFFACE' and e[2] == 'inner':
+                return 'inner', 'FACEINNER'
+            raise Unparsed("field %s of %s" % (e[2], ty))
+        if k == 'index':
+            t, ty = self.expr(e[1], env)
+            i, ti = self.expr(e[2], env)
+            if ty == 'MASK' and ti == 'N':
+                return "(%s %s)" % (t, i), 'B'
+            raise Unparsed("index into %s" % ty)
+        if k == 'mcall':
+            recv, name, args = e[1], e[2], e[3]
+            t, ty = self.expr(recv, env)
+            if ty == 'OMASK' and name == 'map_or' and len(args) == 2 and args[1][0] == 'closure' and len(args[1][1]) == 1 and args[1][1][0][0] == 'pvar':
+                d, td = self.expr(args[0], env)
+                env2 = dict(env)
+                env2[args[1][1][0][1]] = (args[1][1][0][1], 'MASK')
+                b, tb = self.expr(args[1][2], env2)
+                if td != tb:
+                    raise Unparsed("map_or types")
+                return "(match %s with | none => %s | some %s => %s)" % (t, d, args[1][1][0][1], b), td
+            if ty in ('ON', 'OS') and name in ('is_some', 'is_none') and not args:
+                return "(%s.%s)" % (t, 'isSome' if name == 'is_some' else 'isNone'), 'B'
+            if ty == 'FACE' and name in ('left', 'right', 'shift', 'is_periodic', 'is_boundary') and not args:
+                return {'left': ('left', 'N'), 'right': ('right', 'ON'), 'shift': ('shift', 'OS'),
+                        'is_periodic': ('(facePeriodic shift)', 'B'), 'is_boundary': ('(faceBoundary right)', 'B')}[name]
+            if ty == 'ON' and name == 'expect' and len(args) == 1:
+                return "(%s.getD 0)" % t, 'N'
+            raise Unparsed("method %s on %s" % (name, ty))
+        if k == 'call' and e[1] == ('path', ['Some']) and len(e[2]) == 1:
+            t, ty = self.expr(e[2][0], env)
+            if ty == 'N':
+                return "(some %s)" % t, 'ON'
+            raise Unparsed("Some of %s" % ty)
+        if k == 'block':
+            if e[1]:
+                raise Unparsed("block with statements in a rule")
+            return self.expr(e[2], env)
+        if k == 'if' and e[3] is not None:
+            c, tc = self.expr(e[1], env)
+            a, ta = self.expr(e[2], env)
+            b, tb = self.expr(e[3], env)
+            if tc != 'B' or ta != tb:
+                raise Unparsed("if in a rule")
+            return "(if %s then %s else %s)" % (c, a, b), ta
+        if k == 'tuple' and not e[1]:
+            return 'false', 'CTRL'       # `()`: fall through
+        if k == 'continue':
+            return 'true', 'CTRL'        # `continue`: skip
+        if k == 'match':
+            return self.match_hs(e, env)
+        raise Unparsed("rule expression %s" % k)
+
+    def match_hs(self, e, env):
+        """`match half_space { HalfSpace { right_idx: P, shift: Q, .. } [if guard] => body, _ => body }`"""
+        t, ty = self.expr(e[1], env)
+        if ty != 'HS':
+            raise Unparsed("match on %s" % ty)
+        arms = e[2]
+        out = []
+        rty = None
+        default = None
+        if arms and arms[-1][0][0] == 'pwild' and arms[-1][1] is None:
+            default, dty = self.expr(arms[-1][2], env)
+        for pat, guard, body in arms:
+            if pat[0] == 'pwild':
+                if guard is not None:
+                    raise Unparsed("guard on wildcard arm")
+                b, bt = self.expr(body, env)
+                out.append("| _, _ => %s" % b)
+            elif pat[0] == 'pstruct' and pat[1][-1] == 'HalfSpace':
+                f = dict(pat[2])
+                if set(f) - {'right_idx', 'shift'} or not pat[3]:
+                    raise Unparsed("HalfSpace pattern fields")
+                pr, vr = self.pat(f['right_idx'], 'ON') if 'right_idx' in f else ('_', {})
+                ps, vs = self.pat(f['shift'], 'OS') if 'shift' in f else ('_', {})
+                env2 = dict(env)
+                for v, vt in list(vr.items()) + list(vs.items()):
+                    env2[v] = (v, vt)
+                b, bt = self.expr(body, env2)
+                if guard is not None:
+                    g, gt = self.expr(guard, env2)
+                    if gt != 'B' or default is None:
+                        raise Unparsed("guarded arm without a default arm")
+                    b = "(if %s then %s else %s)" % (g, b, default)
+                out.append("| %s, %s => %s" % (pr, ps, b))
+            else:
+                raise Unparsed("arm pattern %r" % (pat,))
+            if rty is not None and bt != rty:
+                raise Unparsed("arms of different type")
+            rty = bt
+        return "(match %s_right, %s_shift with %s)" % (t, t, ' '.join(out)), ('B' if rty == 'CTRL' else rty)
+
+
+def find_node(e, pred):
+    """first sub-node (depth first) of an AST for which pred holds"""
+    if isinstance(e, tuple):
+        if e and isinstance(e[0], str) and pred(e):
+            return e
+        for x in e:
+            r = find_node(x, pred)
+            if r is not None:
+                return r
+    elif isinstance(e, list):
+        for x in e:
+            r = find_node(x, pred)
+            if r is not None:
+                return r
+    return None
